@@ -1,13 +1,22 @@
 """C21 - fast-group frames only write outputs computed in the same pass.
 
-Two parts.
+Three parts.
 
 Kernel side (thin): runs the dispatcher explorer of harness/c22_dispatcher.py
 (same state space, same real bytecode) and reports the C21 invariant set:
 re-activation touches exactly the writer command bytes, zeroes exactly their
-working counters, counts exactly the mismatching ones, all only in a pass that
-ran the group program with output enabled; nothing is returned to the bus with
-an enabled writer unless processed in that pass.
+working counters, counts exactly the mismatching ones (returned counters:
+expected, expected-1, 0 and wrong values that equal the expected one in their
+low 8 / 15 bits), all only in a pass that ran the group program with output
+enabled; nothing is returned to the bus with an enabled writer unless the
+group program processed it in that pass with output enabled.
+
+Life cycle (harness/c22_dispatcher.py, `Life`): the real FastSyncGroup.run
+and FastEtherCat.register_sync_group with frames really passing the real
+dispatcher and group bytecode, under losses, time-outs, cancellation and
+running=False; the same invariants on every pass - including the passes
+between a stop request and the unregistration of the program - and "frames
+leave user space sterile" on every frame handed to the transport.
 
 User-space side: the real ``FastSyncGroup.run`` / ``SyncGroupBase.run`` /
 ``update_devices`` / ``EtherCat.roundtrip_packet`` / ``sendloop`` run on the
@@ -81,6 +90,9 @@ def execute(ch, layout, cycles):
     index = _x.GROUP_INDEX[layout]
     loop = vloop.VLoop()
     obs = dict(frames=[], answers=[], error=None)
+    import ebpfcat.ebpfcat as _E
+    saved_monotonic = _E.monotonic
+    _E.monotonic = loop.time        # the cycle time is measured virtually
     with loop:
         ec = Ec("sim")
         ec.group_index = index
@@ -131,6 +143,7 @@ def execute(ch, layout, cycles):
             if task.done() and not task.cancelled() and task.exception():
                 obs["error"] = repr(task.exception())[:200]
         finally:
+            _E.monotonic = saved_monotonic
             task.cancel()
             sendtask.cancel()
             loop.run_until_idle()
